@@ -44,6 +44,18 @@ pub struct SynthSource {
     /// Terminal failure instead of a clean end.
     pub fail_at_end: bool,
     pub ended: bool,
+    /// Sizes of the successful reads since the consumer last cleared it, and all calls since then
+    /// (shared with the consumer while the reader holds the source).
+    pub op_log: std::rc::Rc<std::cell::RefCell<OpLog>>,
+}
+
+#[derive(Default)]
+pub struct OpLog {
+    pub ok_sizes: Vec<usize>,
+    pub calls: u64,
+    pub calls_after_end: u64,
+    /// the source reported EOF or its terminal error (now or earlier)
+    pub ended: bool,
 }
 
 impl SynthSource {
@@ -60,6 +72,7 @@ impl SynthSource {
             trace: Fnv::default(),
             fail_at_end: c.fail_at_end,
             ended: false,
+            op_log: Default::default(),
         }
     }
 }
@@ -67,6 +80,13 @@ impl SynthSource {
 impl Read for SynthSource {
     fn read(&mut self, buf: &mut [u8]) -> io::Result<usize> {
         self.calls += 1;
+        {
+            let mut l = self.op_log.borrow_mut();
+            l.calls += 1;
+            if self.ended {
+                l.calls_after_end += 1;
+            }
+        }
         self.max_offered = self.max_offered.max(buf.len());
         if self.interrupts && self.rng.chance(1, 7) {
             self.interrupted += 1;
@@ -78,6 +98,7 @@ impl Read for SynthSource {
         }
         let left = self.total - self.pos;
         if left == 0 {
+            self.op_log.borrow_mut().ended = true;
             if self.fail_at_end && !self.ended {
                 self.ended = true;
                 self.trace.u64(u64::MAX - 2);
@@ -108,6 +129,7 @@ impl Read for SynthSource {
         }
         self.pos += n as u64;
         self.trace.u64(n as u64);
+        self.op_log.borrow_mut().ok_sizes.push(n);
         Ok(n)
     }
 }
@@ -137,6 +159,8 @@ pub fn bound(chunk: usize, item: usize) -> usize {
 
 pub struct RawStream {
     pub marathon: bool,
+    /// C09h: read accounting with chunk sizes of 1..64 MiB
+    pub reads: bool,
 }
 
 fn sizes_name(s: ReadSizes) -> String {
@@ -150,6 +174,15 @@ fn sizes_name(s: ReadSizes) -> String {
 
 impl RawStream {
     fn name(&self, what: &str) -> &'static str {
+        if self.reads {
+            return match what {
+                "panic" => "C09.panic",
+                "extra" => "C09.extra_read",
+                "after_end" => "C09.read_after_end",
+                "multi" => "C09.refill_reads",
+                _ => "C09.stream",
+            };
+        }
         match (self.marathon, what) {
             (false, "bound") => "C10.raw_bound",
             (false, "panic") => "C10.panic",
@@ -162,16 +195,199 @@ impl RawStream {
     }
 }
 
+impl RawStream {
+    fn exec_reads(&self, case: &RawCase, st: &mut Stats) -> RunOut {
+        let mut src = SynthSource::new(case);
+        let log = src.op_log.clone();
+        let mut violation: Option<Violation> = None;
+        let mut consumed: u64 = 0;
+        let mut refills: u64 = 0;
+        let mut ops: u64 = 0;
+        let r = crash::catch(|| {
+            let mut rd = DeferredReader::from_read(&mut src);
+            if let Some(c) = case.chunk {
+                rd.set_chunk_size(c);
+            }
+            let mut rng = Rng::new(case.seed);
+            let mut end_seen = false;
+            loop {
+                crate::framework::heartbeat();
+                ops += 1;
+                let before = rd.buf_len();
+                {
+                    let mut l = log.borrow_mut();
+                    l.ok_sizes.clear();
+                    l.calls = 0;
+                    l.calls_after_end = 0;
+                }
+                // one reader call
+                let what = rng.below(4);
+                let mut need: Option<usize> = None;
+                let name: &str;
+                let more = match what {
+                    0 | 1 => {
+                        name = "request_more()";
+                        Some(rd.request_more())
+                    }
+                    2 => {
+                        let n = match rng.below(3) {
+                            0 => rng.below(before + 1),
+                            1 => before + 1 + rng.below(case.lookahead.max(1)),
+                            _ => rng.below(case.max_rec.max(1)) + 1,
+                        };
+                        need = Some(n);
+                        name = "request(n)";
+                        rd.request(n);
+                        None
+                    }
+                    _ => {
+                        let k = rng.below(before + case.lookahead + 1);
+                        need = Some(k + 1);
+                        name = "request_byte_at_offset(k)";
+                        let _ = rd.request_byte_at_offset(k);
+                        None
+                    }
+                };
+                let l = log.borrow();
+                let oks = &l.ok_sizes;
+                refills += oks.len() as u64;
+                let ctx = |what: String| {
+                    format!(
+                        "call #{ops} {name} (need {need:?}) with {before} bytes buffered, {consumed} consumed: {what}; successful reads of this call: {oks:?}"
+                    )
+                };
+                if l.calls_after_end > 0 {
+                    violation = Some(Violation {
+                        check: self.name("after_end"),
+                        signature: "read() issued after the source reported EOF / a terminal error".into(),
+                        detail: ctx(format!("{} such calls", l.calls_after_end)),
+                    });
+                    break;
+                }
+                match more {
+                    Some(_) if oks.len() > 1 || (oks.is_empty() && !l.ended) => {
+                        violation = Some(Violation {
+                            check: self.name("multi"),
+                            signature: "request_more() did not perform exactly one successful read".into(),
+                            detail: ctx(format!("{} successful reads, source at its end: {}", oks.len(), l.ended)),
+                        });
+                        break;
+                    }
+                    Some(false) if !oks.is_empty() => {
+                        violation = Some(Violation {
+                            check: self.name("multi"),
+                            signature: "request_more() returned false although it read data".into(),
+                            detail: ctx(String::new()),
+                        });
+                        break;
+                    }
+                    Some(false) => end_seen = true,
+                    _ => {}
+                }
+                if l.ended {
+                    end_seen = true;
+                }
+                if let Some(n) = need {
+                    if n <= before && l.calls > 0 {
+                        violation = Some(Violation {
+                            check: self.name("extra"),
+                            signature: "read() issued although the buffered data satisfies the request".into(),
+                            detail: ctx(format!("{} calls", l.calls)),
+                        });
+                        break;
+                    }
+                    if n > before && oks.len() > 1 {
+                        let all_but_last: usize = oks[..oks.len() - 1].iter().sum();
+                        if before + all_but_last >= n {
+                            violation = Some(Violation {
+                                check: self.name("extra"),
+                                signature: "a request kept reading after it was satisfied".into(),
+                                detail: ctx(String::new()),
+                            });
+                            break;
+                        }
+                    }
+                }
+                drop(l);
+                // content spot check, then consume
+                let have = rd.buf_len();
+                if have == 0 && (end_seen || rd.is_at_end()) {
+                    break;
+                }
+                let w = rd.buf();
+                let probe = have.min(32);
+                if let Some(j) = (0..probe).find(|&j| w[j] != stream_byte(consumed + j as u64)) {
+                    violation = Some(Violation {
+                        check: self.name("content"),
+                        signature: "reader window differs from the source stream".into(),
+                        detail: format!("stream offset {consumed}: byte +{j}"),
+                    });
+                    break;
+                }
+                let take = match rng.below(4) {
+                    0 => have,
+                    1 => 0,
+                    _ => rng.below(have.min(case.max_rec) + 1),
+                };
+                rd.advance(take);
+                consumed += take as u64;
+                if ops > 20_000 {
+                    break;
+                }
+            }
+        });
+        if let Err(p) = r {
+            violation = Some(Violation {
+                check: self.name("panic"),
+                signature: "DeferredReader panics while streaming".into(),
+                detail: p.short(),
+            });
+        }
+        st.steps += src.calls + ops;
+        st.add("stream.bytes", consumed);
+        st.add("reader.calls", ops);
+        st.add("source.successful_reads", refills);
+        st.add("fault.interrupted", src.interrupted);
+        st.add("source.calls", src.calls);
+        if case.fail_at_end {
+            st.hit("fault.terminal_error_at_end");
+        }
+        st.max("largest_slice_offered_to_source", src.max_offered as u64);
+        let mut t = Fnv::default();
+        t.u64(src.trace.0);
+        t.u64(ops);
+        t.u64(consumed);
+        let mut k = Fnv::default();
+        k.str(&format!("{case:?}"));
+        RunOut {
+            violation,
+            key: if refills >= 3 { Some(k.0) } else { None },
+            trace: t.0,
+        }
+    }
+}
+
 impl Prop for RawStream {
     type Case = RawCase;
     fn id(&self) -> &'static str {
-        if self.marathon {
+        if self.reads {
+            "C09h"
+        } else if self.marathon {
             "C02m"
         } else {
             "C10r"
         }
     }
     fn meta(&self) -> Meta {
+        if self.reads {
+            return Meta {
+                level: "exploration",
+                rule: "read accounting with huge chunks: a DeferredReader with a chunk size of 1..64 MiB streams 3..6 chunks of a synthetic source that fills whatever it is offered (or random amounts up to a chunk), optional Interrupted, clean end or terminal error; the consumer calls request_more() / request(n) / request_byte_at_offset(k) and advances by random amounts; after every call the source's own log of that call is checked: request_more() = exactly one successful read (none once the end was seen), a request that the buffered data satisfies = no read() at all, a larger request = every successful read but the last left the request unsatisfied, no read() after EOF or error; non-trivial iff at least three refills happened; distinct = distinct case parameters",
+                assumptions: vec!["constructor from_read (no BufReader in between), so every refill reaches the source"],
+                real: vec!["flussab::DeferredReader"],
+                stub: vec!["unbounded byte source (SynthSource) with a per-call log"],
+            };
+        }
         if self.marathon {
             Meta {
                 level: "exploration",
@@ -194,6 +410,14 @@ impl Prop for RawStream {
         }
     }
     fn runs(&self, tier: Tier) -> u64 {
+        if self.reads {
+            return match (tier, cfg!(debug_assertions)) {
+                (Tier::Quick, true) => 16,
+                (Tier::Quick, false) => 48,
+                (Tier::Thorough, true) => 400,
+                (Tier::Thorough, false) => 1_200,
+            };
+        }
         match (self.marathon, tier, cfg!(debug_assertions)) {
             (true, Tier::Quick, true) => 2,
             (true, Tier::Quick, false) => 8,
@@ -206,6 +430,36 @@ impl Prop for RawStream {
         }
     }
     fn gen(&self, rng: &mut Rng, tier: Tier) -> RawCase {
+        if self.reads {
+            let chunk = *rng.pick(&[
+                1usize << 20,
+                (8 << 20) - 1,
+                8 << 20,
+                (8 << 20) + 1,
+                12 << 20,
+                16 << 20,
+                32 << 20,
+                64 << 20,
+                (32 << 20) + 4097,
+            ]);
+            return RawCase {
+                marathon: false,
+                chunk: Some(chunk),
+                sizes: if rng.chance(2, 3) {
+                    ReadSizes::Full
+                } else {
+                    ReadSizes::Random(chunk)
+                },
+                interrupts: rng.chance(1, 4),
+                seed: rng.next_u64(),
+                total: (chunk as u64) * (3 + rng.below(4) as u64) + rng.below(100_000) as u64,
+                max_rec: *rng.pick(&[1usize << 16, 1 << 20, 4 << 20, chunk]),
+                lookahead: *rng.pick(&[1usize, 4096, 1 << 20, chunk / 2, chunk]),
+                pattern: 3,
+                marks: false,
+                fail_at_end: rng.chance(1, 3),
+            };
+        }
         if self.marathon {
             let chunk = *rng.pick(&[1usize << 20, 4 << 20, 16 << 20, (1 << 20) + 4099]);
             return RawCase {
@@ -287,6 +541,9 @@ impl Prop for RawStream {
         }
     }
     fn exec(&self, case: &RawCase, st: &mut Stats) -> RunOut {
+        if self.reads {
+            return self.exec_reads(case, st);
+        }
         let chunk = case.chunk.unwrap_or(16 << 10);
         let limit = bound(chunk, case.lookahead.max(case.max_rec)) as isize;
         let t0 = std::time::Instant::now();
